@@ -285,7 +285,21 @@ def _ref_all_equal(t, facet):
 def _sum_terms(t):
     if t.op == "bin" and t.a[0] in ("+", "|"):
         return _sum_terms(t.a[1]) + _sum_terms(t.a[2])
+    if t.op == "call" and call_name(t) == "np.logical_or" and len(t.a[1]) == 2:
+        return _sum_terms(t.a[1][0]) + _sum_terms(t.a[1][1])
     return [t]
+
+
+def _none_of(mask):
+    """the Boolean expression X when ``mask`` selects the entries where X is false:
+    X == 0, X == False, ~X, not X, np.logical_not(X), np.invert(X); else None"""
+    if mask.op == "cmp" and mask.a[0] == "==" and (tm.is_const(mask.a[1], 0) or tm.is_const(mask.a[2], 0)):
+        return mask.a[2] if tm.is_const(mask.a[1], 0) else mask.a[1]
+    if mask.op == "un" and mask.a[0] in ("~", "not"):
+        return mask.a[1]
+    if mask.op == "call" and call_name(mask) in ("np.logical_not", "np.invert", "np.bitwise_not") and len(mask.a[1]) == 1:
+        return mask.a[1][0]
+    return None
 
 
 def rule_vocab(ctx):
@@ -296,8 +310,8 @@ def rule_vocab(ctx):
         m0 = masks[0]
         good = False
         why = "vocabulary mask not recognised"
-        if m0.op == "cmp" and m0.a[0] == "==" and (tm.is_const(m0.a[1], 0) or tm.is_const(m0.a[2], 0)):
-            s_ = m0.a[2] if tm.is_const(m0.a[1], 0) else m0.a[1]
+        if _none_of(m0) is not None:
+            s_ = _none_of(m0)
             parts = _sum_terms(s_)
             got = set()
             for p in parts:
@@ -323,8 +337,8 @@ def rule_vocab(ctx):
         m0 = masks[0]
         good = False
         why = "vocabulary mask not recognised"
-        if m0.op == "cmp" and m0.a[0] == "==" and (tm.is_const(m0.a[1], 0) or tm.is_const(m0.a[2], 0)):
-            s_ = m0.a[2] if tm.is_const(m0.a[1], 0) else m0.a[1]
+        if _none_of(m0) is not None:
+            s_ = _none_of(m0)
             if s_.op == "call" and call_name(s_) == "np.sum" and any(n == "axis" and tm.is_const(v, 0) for n, v in s_.a[2]):
                 arr = s_.a[1][0]
                 if arr.op == "call" and call_name(arr) == "np.array":
@@ -342,8 +356,8 @@ def rule_vocab(ctx):
         masks = [idx for idx, val in stores if is_lit(val) and lit(val) < 0]
         good = False
         for m in masks:
-            if m.op == "cmp" and m.a[0] == "==" and (tm.is_const(m.a[1], 0) or tm.is_const(m.a[2], 0)):
-                v = m.a[2] if tm.is_const(m.a[1], 0) else m.a[1]
+            if _none_of(m) is not None:
+                v = _none_of(m)
                 if v.op == "upd" and v.a[1] == "setitem":
                     init, key, val = v.a[0], v.a[2], v.a[3]
                     ones = init.op == "call" and call_name(init) == "np.ones"
@@ -455,6 +469,26 @@ def rule_encodepure(ctx):
         yield o
 
 
+def _only_encode_results(t, depth=0):
+    """is ``t`` a per-call cache (dict threaded through the loop) whose every stored value is an encode() result?"""
+    if depth > 12:
+        return False
+    if t.op in ("loopvar",):
+        return _only_encode_results(t.a[2], depth + 1)
+    if t.op == "loop":
+        return _only_encode_results(t.a[2], depth + 1) and _only_encode_results(t.a[3], depth + 1)
+    if t.op == "ite":
+        return _only_encode_results(t.a[1], depth + 1) and _only_encode_results(t.a[2], depth + 1)
+    if t.op == "upd":
+        v = t.a[3]
+        return t.a[1] == "setitem" and v.op == "call" and call_name(v) == "chord.encode" and _only_encode_results(t.a[0], depth + 1)
+    if t.op == "dict" and not t.a:
+        return True
+    if t.op == "call" and call_name(t) in ("builtins.dict", "collections.OrderedDict") and not t.a[1]:
+        return True
+    return False
+
+
 def rule_encodeall(ctx):
     """encode_many encodes *every* label with encode() (directly or through its per-call cache of encode() results):
     no label is special-cased on the way, so X keeps its all-ones placeholder bitmap and N its empty one, which is
@@ -476,7 +510,7 @@ def rule_encodeall(ctx):
                 # component of encode(label, reduce) or of a cache lookup whose entries are such results
                 base = a.a[0] if a.op == "sub" else a
                 is_enc = base.op == "call" and call_name(base) == "chord.encode" and base.a[1] and base.a[1][0].op == "iter"
-                is_cache = base.op == "call" and call_name(base) in (".get",) or (base.op == "sub" and base.a[0].op in ("loopvar", "loop"))
+                is_cache = base.op == "call" and call_name(base) in (".get",) or (base.op == "sub" and _only_encode_results(base.a[0])) or (a.op == "sub" and _only_encode_results(a.a[0]))
                 good = good and (is_enc or is_cache)
             conds = [tm.show(c, 2) for c, _ in symeval.pc_conds(m.pc)]
             good = good and not conds
